@@ -58,6 +58,13 @@ def frs(x):
 def main(gen_case, run_case):
     job = json.load(sys.stdin)
     import dimod, os
+    # fail closed: the implementation under test must be the scratch build the driver prepared (first
+    # PYTHONPATH entry), never another installed copy (e.g. after the scratch build was removed meanwhile)
+    want = os.path.realpath(os.environ.get("PYTHONPATH", "").split(os.pathsep)[0] or ".")
+    have = os.path.realpath(os.path.dirname(dimod.__file__))
+    if not (have + os.sep).startswith(want + os.sep):
+        sys.stderr.write(f"dimod imported from {have}, expected the scratch build under {want}\n")
+        sys.exit(97)
     out = {"cases": [], "dimod_file": os.path.dirname(dimod.__file__)}
     if job["mode"] == "gen":
         cases = []
